@@ -715,6 +715,16 @@ class History:
                 self.v("overwrite_did_not_rewrite",
                        "run %d with overwrite_predictions left %s untouched" % (i, rel))
                 break
+        # (7b) ... and, with overwrite_fitted_strategies, every saved fitted strategy
+        if opts.get("save_fitted_strategies") and opts.get("overwrite_fitted_strategies") \
+                and outcome == "completed":
+            for rel, h in before.items():
+                if not rel.endswith(".pickle") or rel == "results.pickle" or rel not in after:
+                    continue
+                if after[rel] == h:
+                    self.v("overwrite_did_not_rewrite", "run %d with overwrite_fitted_strategies "
+                           "left the saved fitted strategy %s untouched" % (i, rel), kind="pickle")
+                    break
         # (5) registry complete after a completed run, read from a fresh load
         if outcome == "completed" and (after != before or not self.registry_checked):
             self.registry_checked = True
